@@ -271,7 +271,11 @@ func (f *verifFeed) buildPledge(w *verifgen.Wallet) (crypto.Hash, *common.Versio
 	ts := f.atHour([]int{21, 22, 23, 1, 2, 3, 4}[f.rng.Intn(7)], 50*time.Minute)
 	eid := f.node.electSnapshotNode(common.TransactionTypeNodePledge, ts)
 	last, _ := f.node.ReadLastConsensusSnapshotWithHack()
-	tx := verifgen.Pledge(cand, funding, last.Transactions)
+	refs := append([]crypto.Hash{}, last.Transactions...)
+	if f.pledgeTwoRefs || f.rng.Intn(2) == 0 {
+		refs = append(refs, funding.Hash) // a second reference (any finalized transaction) is legal after the consensus one
+	}
+	tx := verifgen.Pledge(cand, funding, refs)
 	return eid, tx, ts, cand, nil
 }
 
